@@ -35,6 +35,8 @@ var deviations = []deviation{
 	{"commits-longer", "state_dkg_commits_await_confirmations"},
 	{"commits-shorter", "state_dkg_commits_await_confirmations"},
 	{"commits-garbage-point", "state_dkg_commits_await_confirmations"},
+	{"commits-reordered", "state_dkg_commits_await_confirmations"},
+	{"commits-first-repeated", "state_dkg_commits_await_confirmations"},
 	{"deal-bitflip", "state_dkg_deals_await_confirmations"},
 	{"deal-truncated", "state_dkg_deals_await_confirmations"},
 	{"deal-empty", "state_dkg_deals_await_confirmations"},
@@ -114,6 +116,22 @@ func (a *algRun) c11Scenario(outDir string, n, t, dealer, victim int, dev deviat
 			case "commits-garbage-point":
 				commits[len(commits)-1] = []byte("this is not a curve point at all, not even close!")
 				bcast = nil
+			case "commits-reordered":
+				// the same points in another order: another polynomial (for t >= 2), the same SET of commitments
+				if len(commits) < 2 {
+					return
+				}
+				for i, j := 0, len(commits)-1; i < j; i, j = i+1, j-1 {
+					commits[i], commits[j] = commits[j], commits[i]
+					bcast[i], bcast[j] = bcast[j], bcast[i]
+				}
+			case "commits-first-repeated":
+				if len(commits) < 2 {
+					return
+				}
+				for k := 1; k < len(commits); k++ {
+					commits[k], bcast[k] = commits[0], bcast[0]
+				}
 			}
 			req.Commit, _ = json.Marshal(commits)
 			res.ResultMsgs[0].Data, _ = json.Marshal(req)
